@@ -166,11 +166,11 @@ class Universe:
 
     def gen_effect(self, eid):
         r = self.rng
-        cat = int(r.choice([EC.passive, EC.passive, EC.active, EC.active, EC.target, EC.target, EC.online,
-                            EC.overload, EC.system]))
+        cat = int(r.choice([EC.passive, EC.passive, EC.active, EC.active, EC.target, EC.target, EC.target,
+                            EC.online, EC.overload, EC.system]))
         if self.malformed and r.random() < 0.15:
             cat = int(r.choice([EC.area, EC.dungeon]))
-        mods = self.gen_mods(cat, r.randint(0, 3))
+        mods = self.gen_mods(cat, r.randint(1, 3) if cat == int(EC.target) else r.randint(0, 3))
         resist = None
         if cat == int(EC.target) and mods and all(m['domain'] == int(D.target) for m in mods) and r.random() < 0.5:
             resist = r.choice(self.base_attrs)
@@ -210,9 +210,22 @@ class Universe:
             effects.append(int(EffectId.target_attack))
             if r.random() < 0.8:
                 attrs[int(AttrId.ammo_loaded)] = Fraction(r.choice(self.charge_types + [9999]))
+        if 'target' in allow_effects and r.random() < 0.7:
+            tg = [e for e in self.effect_ids if self.effects[e]['cat'] == int(EC.target)]
+            if tg:
+                e = r.choice(tg)
+                if e not in effects:
+                    effects.append(e)
         r.shuffle(effects)
         actives = [e for e in effects if self.effects[e]['cat'] in (int(EC.active), int(EC.target))]
-        default = r.choice(actives) if actives and r.random() < 0.8 else None
+        buffs_here = [e for e in effects if e in [int(b) for b in BUFF_EFFECTS]]
+        tgs = [e for e in actives if self.effects[e]['cat'] == int(EC.target)]
+        if buffs_here and r.random() < 0.7:
+            default = buffs_here[0]
+        elif tgs and r.random() < 0.6:
+            default = r.choice(tgs)
+        else:
+            default = r.choice(actives) if actives and r.random() < 0.85 else None
         skills = {}
         for s in self.skill_types:
             if r.random() < 0.3:
@@ -355,7 +368,7 @@ class World:
                 pool.append((cls, u.misc_types[cls][0]))
         pool.append(('skill', r.choice(u.skill_types)))
         for cls, tid in pool:
-            st = r.choice(STATES) if cls in ('modhigh', 'modmid', 'modlow', 'drone', 'fighter') else 1
+            st = r.choice([1, 2, 3, 3, 3, 4]) if cls in ('modhigh', 'modmid', 'modlow', 'drone', 'fighter') else 1
             self.new_item(cls, tid, st, r.randint(0, 5))
 
     # -- op generators ---------------------------------------------------
@@ -447,7 +460,7 @@ class World:
         r = self.rng
         cand = [i for i, c in self.items.items() if c in ('modhigh', 'modmid', 'modlow', 'drone', 'fighter')]
         if cand:
-            self.emit('state %d %d' % (r.choice(cand), r.choice(STATES)))
+            self.emit('state %d %d' % (r.choice(cand), r.choice([1, 2, 3, 3, 4])))
 
     def op_charge(self):
         r = self.rng
@@ -468,8 +481,11 @@ class World:
         if not cand:
             return
         i = r.choice(cand)
-        tg = [j for j, c in self.items.items() if c in ('ship', 'drone', 'ship', 'ship')]
-        if r.random() < 0.25 or not tg:
+        tg = [j for j, c in self.items.items() if c in ('ship', 'drone')]
+        placed_ships = [j for j in tg if self.items[j] == 'ship' and self.where[j] is not None]
+        if placed_ships and r.random() < 0.7:
+            tg = placed_ships
+        if r.random() < 0.2 or not tg:
             self.emit('target %d -' % i)
         else:
             self.emit('target %d %d' % (i, r.choice(tg)))
@@ -619,6 +635,13 @@ def gen_history(rng, nops=None, malformed=False, nfits=None, two_sources=True):
             s = rng.choice(w.sss)
             w.emit('ssadd %d %d' % (s, f))
             w.fit_ss[f] = s
+    # build up most of the fits first
+    for _ in range(int(0.7 * len(w.items))):
+        w.op_place()
+    for _ in range(rng.randint(0, 4)):
+        w.op_target()
+    for _ in range(rng.randint(0, 2)):
+        w.op_fleet()
     setup_len = len(w.lines)
     nops = nops or rng.randint(10, 45)
     for _ in range(nops):
